@@ -43,6 +43,7 @@ def run_driver(ctx, binp, ops_path, tag):
         model = out.splitlines()[len(extra):]
         need = sorted({m.split()[1] for m in model if m.startswith("need-json ")})
         if not need:
+            ctx._e3_json = extra
             return model
         jin, jout = os.path.join(ctx.work, tag + ".need"), os.path.join(ctx.work, tag + ".got")
         with open(jin, "w") as f:
@@ -141,10 +142,13 @@ def first_command_fail(op, impl, conf):
     if len(w) != 3 or w[0] != "io":
         return None
     stream = unhex(w[2])
-    if not stream.startswith(b"  V2"):
-        return None
     f = dict(x.split("=", 1) for x in impl.split() if "=" in x)
     replies = [] if f.get("R", "-") == "-" else f["R"].split(",")
+    if not stream.startswith(b"  V2"):
+        if len(stream) >= 4 and (replies != ["E_BAD_PROTOCOL"] or f.get("E") != "closed"):
+            return "bad-magic", "protocol magic %r answered %s / %s instead of E_BAD_PROTOCOL and close" % (
+                stream[:4], replies, f.get("E"))
+        return None
     rest = stream[4:]
     pre_ok = 0
     m = re.match(rb"SUB ([.a-zA-Z0-9_#-]+) ([.a-zA-Z0-9_#-]+)\n", rest)
@@ -198,6 +202,62 @@ def http_fail(op, impl, conf):
                 len(body), conf["maxBody"])
         return "http-mpub-size", "/mpub accepted a body of %d bytes (max-body-size %d)" % (len(body), conf["maxBody"])
     return None
+
+
+def spec_oracle(ctx, ops, impl, model_json_lines):
+    """Direct oracle against the declarative table (Nsq.Spec.ProtoSpec.allowed, evaluated by the
+    driver's `spec` op — not the model): the implementation's answer to the first command of every
+    connection must be one the table allows, and close the connection exactly when the table says so."""
+    confs = [o for o in ops if o.startswith("conf ")]
+    idx = [i for i, o in enumerate(ops) if o.startswith("io ")]
+    lines = confs + model_json_lines + ["spec " + ops[i].split(" ", 1)[1] for i in idx]
+    p = os.path.join(ctx.work, "spec.ops")
+    with open(p, "w") as f:
+        f.write("\n".join(lines) + "\n")
+    rc, out = ctx.driver("e3", stdin_path=p, timeout=3000)
+    ans = out.splitlines()[len(confs) + len(model_json_lines):]
+    checked = 0
+    for i, a in zip(idx, ans):
+        if not a.startswith("A=") or a == "A=-":
+            continue
+        f = dict(x.split("=", 1) for x in impl[i].split() if "=" in x)
+        replies = [] if f.get("R", "-") == "-" else f["R"].split(",")
+        if f.get("E") in ("upgraded", "panic", "hang"):
+            continue
+        ptr, bad, cmdno = 0, None, 0
+        stream = unhex(ops[i].split()[2])
+        for step in a[2:].split(";"):
+            cmdno += 1
+            allowed = [x.split("|") for x in step.split(",")]
+            kinds = {r for r, _c in allowed}
+            if kinds == {"-"}:
+                continue                   # the table expects no frame for this command
+            if "-" in kinds:
+                break                      # frame or no frame: cannot attribute what follows
+            checked += 1
+            if ptr >= len(replies):
+                bad = "command #%d got no answer; the protocol table allows %s" % (cmdno, sorted(kinds))
+                break
+            r = replies[ptr]
+            ptr += 1
+            ok = [c for rr, c in allowed if rr == r]
+            last = ptr == len(replies)
+            if not ok:
+                bad = "command #%d answered %s; the protocol table allows %s" % (cmdno, r, sorted(kinds))
+            elif all(c == "1" for c in ok) and not (last and f.get("E") == "closed"):
+                bad = "command #%d answered %s (fatal) but the connection went on (%s)" % (cmdno, r, impl[i][:80])
+            elif all(c == "0" for c in ok) and r.startswith("E_") and last and f.get("E") == "closed":
+                bad = "command #%d answered the non-fatal %s and the connection was closed" % (cmdno, r)
+            if bad or r.startswith("E_") and ok and ok[0] == "1":
+                break
+            if r == "JSON" and f.get("E") == "upgraded":
+                break
+        if bad:
+            cmd = stream[4:].split(b"\n")[0].split(b" ")[0][:12].decode("latin1")
+            key = "answer:" + re.sub(r"[^A-Za-z0-9_#]+", "_", bad.split(";")[0])[:60]
+            ctx.violation(key, "%s (conf %s, first command %r)" % (bad, ops[i].split()[1], cmd),
+                          "%s\n%s\n# impl: %s\n# table: %s\n" % (ops_conf_line(ops, ops[i].split()[1]), ops[i], impl[i], a))
+    ctx.corr["spec_oracle_checked"] = checked
 
 
 def harness_lines(ctx, out, label):
@@ -337,6 +397,7 @@ def run(ctx):
             impl = open(os.path.join(ctx.work, "proto.impl")).read().splitlines()
             model = run_driver(ctx, binp, opsf, "proto")
             compare(ctx, "proto", ops, impl, model, corr_broken)
+            spec_oracle(ctx, ops, impl, [l for l in ops if l.startswith("json ")] + getattr(ctx, "_e3_json", []))
             for o, i in list(zip(ops, impl)):
                 if o.startswith("io ") and len(o) < 300:
                     ctx.add_sample({"op": o, "impl": i[:300]})
